@@ -38,6 +38,17 @@ def check(run):
     for i in range(n):
         fp, bps = gen_preamble(rng)
         ops = [("Q", {"cport": 53}, None)]
+        if i % 5 == 4:
+            # parameter sets handed over through add_block_parameters (before anything is written), some objects twice
+            first, late = bps[:1], bps[1:]
+            ops = []
+            for j, bp in enumerate(late):
+                ops.append(("AB", bp))
+                if rng.random() < 0.5:
+                    ops.append(("ABR", 1 + rng.randrange(j + 1)))
+            ops.append(("Q", {"cport": 53}, None))
+            sessions.append(refexp.make_session(fp, first, ops, target=rng.choice(["fd", "fd", "nm"])))
+            continue
         sessions.append(refexp.make_session(fp, bps, ops, target=rng.choice(["fd", "fd", "nm"])))
     res = E.run_sessions(run, sessions)
     seen = set()
